@@ -328,6 +328,9 @@ func (obj JsonWebEncryption) Decrypt(decryptionKey interface{}) ([]byte, error) 
 	authData := obj.computeAuthData()
 
 	var plaintext []byte
+	// Note: an empty plaintext decrypts to a nil slice, so success must be
+	// tracked explicitly rather than inferred from plaintext != nil.
+	decrypted := false
 	for _, recipient := range obj.recipients {
 		recipientHeaders := obj.mergedHeaders(&recipient)
 
@@ -336,12 +339,13 @@ func (obj JsonWebEncryption) Decrypt(decryptionKey interface{}) ([]byte, error) 
 			// Found a valid CEK -- let's try to decrypt.
 			plaintext, err = cipher.decrypt(cek, authData, parts)
 			if err == nil {
+				decrypted = true
 				break
 			}
 		}
 	}
 
-	if plaintext == nil {
+	if !decrypted {
 		return nil, ErrCryptoFailure
 	}
 
